@@ -111,6 +111,9 @@ pub fn value(floats: bool, cas_lookalike: bool) -> BoxedStrategy<Value> {
             }),
         ]
     })
+    // the recursive construction can assemble the exact shape {"Cas":[v,n]} by chance; without
+    // `cas_lookalike` such a value is wrapped (only the top level shape of a stored value matters: D10)
+    .prop_map(move |v| if !cas_lookalike && crate::model::looks_like_cas_tag(&v) { json!([v]) } else { v })
     .boxed()
 }
 
